@@ -566,7 +566,17 @@ def e_Compare(self, st, node):
                             np_.append((s2, a2, b2))
                     pend = np_
                 for (s2, a2, b2) in pend:
-                    r = self.x_compare(s2, op, a2, b2, node)
+                    r = None
+                    if isinstance(op, (ast.Eq, ast.NotEq)) and (isinstance(a2, LenOf) or isinstance(b2, LenOf)):
+                        ln, other_node = (a2, operands[i + 1]) if isinstance(a2, LenOf) else (b2, operands[i])
+                        if isinstance(other_node, ast.Name):
+                            facts = dict(s2.ghost.get("#len:" + ln.seq) or ())
+                            if other_node.id in facts:
+                                r = facts[other_node.id] == "eq"
+                                if isinstance(op, ast.NotEq):
+                                    r = not r
+                    if r is None:
+                        r = self.x_compare(s2, op, a2, b2, node)
                     if isinstance(r, Top):
                         if len(node.ops) == 1:
                             nxt.append((s2, r))
